@@ -31,6 +31,11 @@ def gen(W):
     sc = {}
     sc["trusted_proxy"] = W.choice([None, "192.0.2.10", "10.9.9.9"])
     sc["peer"] = W.choice(["203.0.113.5", "192.0.2.11", "10.9.9.90", "127.0.0.1"])
+    if sc["trusted_proxy"] and W.chance(0.5):
+        # peers that differ from the trusted address by a prefix, a suffix, one character, a mapped form ...
+        t = sc["trusted_proxy"]
+        sc["peer"] = W.choice(["1" + t, "2" + t, t + "0", t + "1", t[1:], t[:-1], "::ffff:" + t, t.replace(".", ".0", 1),
+                               t[:-1] + ("1" if t[-1] != "1" else "2"), "[" + t + "]", t + ".", " " + t, t.upper() + "a"])
     sc["clear"] = W.chance(0.6)
     sc["count"] = 1 + W.draw(4)
     sc["log_untrusted"] = W.chance(0.2)
